@@ -177,7 +177,7 @@ func (e *c06End) Read(p []byte) (int, error) {
 		e.run.rec("R", e.rd, len(p), e.off, 0, "e"+strconv.Itoa(c06ErrReadClosed))
 		return 0, c06FakeErr{c06ErrReadClosed}
 	}
-	if exhausted {
+	if exhausted || len(e.reads) == 0 { // (second case: two readers on one end, only a broken relay does that)
 		e.run.rec("R", e.rd, len(p), e.off, 0, "e"+strconv.Itoa(c06ErrIdle))
 		return 0, c06FakeErr{c06ErrIdle}
 	}
